@@ -33,7 +33,7 @@ CTX = [
     ("Vec<tuple-after-two-foreign>", lambda x: ("vec", ("tuple", [rg.N("AaaForeignPath"), rg.N("Aab"), x, rg.N("ZzzForeignId")]))),
 ]
 # type names that begin like the containers / primitives the tool recognises by string prefix, and other awkward shapes
-NAME_POOL = ["Table", "TableSchema", "Schema", "JsonSchema", "QueryParams", "QueryParamsSchema", "Options", "OptionalFeature", "Option_", "Vec3", "Vector", "VecDeque2", "HashSetStats", "HashMapper", "BTreeMapView", "BTreeSetLike",
+NAME_POOL = ["K", "V", "E", "Größe", "データ", "Table", "TableSchema", "Schema", "JsonSchema", "QueryParams", "QueryParamsSchema", "Options", "OptionalFeature", "Option_", "Vec3", "Vector", "VecDeque2", "HashSetStats", "HashMapper", "BTreeMapView", "BTreeSetLike",
              "Results", "ResultSet", "Stringy", "StringList", "Str", "Boolean", "Bool", "I32Wrapper", "U8", "F64x", "Usize", "Channel2", "ChannelMsg",
              "Record", "Tuple", "Unit", "Boxed", "ArcItem", "T", "A", "Z9", "Item_V2", "HTTPResponse", "State2", "Window2", "AppHandle2", "Event", "Error",
              "Self_", "Some", "None_", "Ok", "Err", "Node", "User", "Config"]
@@ -62,6 +62,16 @@ def gen_case(rnd, idx, forced_ctx=None, forced_root=None, n=None):
             if rnd.random() < p:
                 lab, f = forced_ctx if (forced_ctx and rnd.random() < 0.7) else rnd.choice([c_ for c_ in CTX if c_[0] != "ref"])
                 edges[i].append((j, lab, f(rg.N(names[j]))))
+    if idx % 4 == 3:
+        # a field that names the owning type AND another project type (a recursive container keyed or labelled by something else):
+        # the other type is reached through it like through any field
+        for i in range(n):
+            if kinds[i] != "enum" and n > 1 and rnd.random() < 0.5:
+                j = rnd.choice([x for x in range(n) if x != i])
+                me, other = rg.N(names[i]), rg.N(names[j])
+                lab, ty = rnd.choice([("map-key-beside-self", ("hmap", other, me)), ("tuple-beside-self", ("vec", ("tuple", [other, me]))),
+                                      ("tuple-after-self", ("opt", ("tuple", [me, other]))), ("map-value-beside-self-key", ("bmap", me, ("vec", other)))])
+                edges[i].append((j, lab, ty))
     nonserde = {i for i in range(n) if i > 0 and rnd.random() < 0.12}
     nfiles = rnd.randint(1, 5)
     file_of = {i: "f%d.rs" % rnd.randrange(nfiles) if nfiles > 1 else "lib.rs" for i in range(n)}
